@@ -135,6 +135,8 @@ Directed == {
   DS("bolt_req",    "key-length-minus-one",      "0000000773657276", "ffffffff73657276"),
   DS("bolt_req",    "key-length-2g",             "0000000773657276", "7fffffff73657276"),
   DS("bolt_req",    "value-length-minus-two",    "00000003737663",   "fffffffe737663"),
+  DS("bolt_req",    "value-swallows-next-key",   "00000003737663",   "00000008737663"),
+  DS("boltv2_resp", "value-swallows-next-key",   "00000003737663",   "00000008737663"),
   DS("bolt_resp",   "key-length-2g",             "0000000773657276", "7fffffff73657276"),
   DS("boltv2_req",  "key-length-minus-one",      "0000000773657276", "ffffffff73657276"),
   DS("boltv2_req",  "key-length-2g",             "0000000773657276", "7fffffff73657276"),
@@ -142,6 +144,9 @@ Directed == {
   DS("dubbo_req",   "hessian-string-64k",        "05322e302e32",     "53ffff2e302e"),
   DS("dubbo_req",   "hessian-string-chunked",    "05322e302e32",     "52ffff2e302e"),
   DS("dubbo_req",   "hessian-second-string-64k", "087376632e74",     "53ffff632e74"),
+  DS("dubbo_req",   "hessian-string-bad-byte-a", "05322e302e32",     "05322e302ed6"),
+  DS("dubbo_req",   "hessian-string-bad-byte-b", "087376632e74",     "0873f6632e74"),
+  DS("dubbo_req",   "hessian-string-bad-bytes",  "322e302e32087376", "322e302ed60873f6"),
   DS("thrift_req",  "service-length-2g",         "0100000008737663", "017fffffff737663"),
   DS("thrift_req",  "service-length-negative",   "0100000008737663", "01ffffffff737663"),
   DS("thrift_req",  "method-length-2g",          "0000000463616c6c", "7fffffff63616c6c"),
@@ -151,6 +156,7 @@ Directed == {
   DS("tars_req",    "sbuffer-length-as-int16",   "7d00000c",         "7d00017f"),
   DS("tars_resp",   "sbuffer-length-as-int32",   "6d00000c",         "6d00020c"),
   DS("tars_resp",   "sbuffer-length-negative",   "6d00000c",         "6d0000ff"),
+  DS("tars_resp",   "map-head-instead-of-string", "86026f6b",        "98026f6b"),
   DS("tars_req",    "servant-string4-2g",        "56087376632e",     "577fffffff2e")
 }
 
